@@ -159,7 +159,18 @@ GenCmd(ed, sd, t, j) ==
 
 (* a prompt line: usually one command, sometimes two separated by "|" (a global must come last) *)
 GenLineCmds(ed, sd, t) ==
-    LET c1 == GenCmd(ed, sd, t, 0) IN
+    LET c1 == GenCmd(ed, sd, t, 0)
+        nm(n) == [a |-> [b |-> "num", n |-> n, m |-> 0, re |-> <<>>, offs |-> <<>>], sep |-> ""]
+    IN
+    (* the glob profile plays, every ten lines, a global that aborts after it has made the buffer longer (the lines it has not
+       visited stay marked) and then a global over the first two lines only *)
+    IF Profile = "glob" /\ t % 10 = 4 /\ NLines(ed) >= 2
+    THEN <<[k |-> "g", loc |-> <<>>, re |-> <<46>>, cmds |-> <<[k |-> "y", loc |-> <<>>, reg |-> 97], [k |-> "pu", loc |-> <<>>, reg |-> 97],
+                                                              [k |-> "d", loc |-> RelLoc(9 + NLines(ed)), reg |-> 0]>>]>>
+    ELSE IF Profile = "glob" /\ t % 10 = 5 /\ NLines(ed) >= 3
+    THEN <<[k |-> "g", loc |-> <<[nm(1) EXCEPT !.sep = ","], nm(2)>>, re |-> <<46>>,
+            cmds |-> <<[k |-> "s", loc |-> <<>>, re |-> <<36>>, rep |-> <<88>>, g |-> FALSE]>>]>>
+    ELSE
     (* "rs" and "!" take the rest of their line; the commands of @ are a command line of their own (own undo step) *)
     (* after u / redo the rows of the marks are not constrained: no second command (it may address a mark) on that line *)
     IF Pick(sd, t, 50, 8) = 0 /\ c1.k \notin {"g", "v", "null", "rs", "!", "@", "u", "redo"}
